@@ -11,7 +11,7 @@ PY
 [ $? -eq 0 ] || exit 3
 rm -f /verif/replay/out/$PROP-*
 /verif/bin/govc check $PROP quick | cut -c1-260
-git -C /repo checkout -- $FILE
+git -C /repo checkout -- $FILE # (only the one mutated file)
 python3 - $PROP <<'PY'
 import json,glob,sys
 for f in glob.glob('/verif/replay/out/%s-*'%sys.argv[1]):
